@@ -14,6 +14,10 @@ def _configs(tier):
         out.append(dict(name='all-on-f64', real=8, have=ALL_HAVE))
         out.append(dict(name='all-off-f64', real=8, have=[]))
         out.append(dict(name='all-off-f32', real=4, have=[], zero=ALL_HAVE[::2]))
+        # mixed builds in which a composite fallback body (asinh/acosh/atanh = +-i f(+-iz)) sits on top of a libm-backed base
+        # function: the two sides may follow different conventions on an axis (seeded change C10-C)
+        for h in ('CASINH', 'CACOSH', 'CATANH'):
+            out.append(dict(name='off-%s-f64' % h, real=8, have=[x for x in ALL_HAVE if x != h]))
         return out
     for real, tag in reals:
         out.append(dict(name='all-on-' + tag, real=real, have=ALL_HAVE))
@@ -30,9 +34,9 @@ SPEC = dict(
     configs=_configs,
     parallel_configs=8,
     lib_sources=['complex.c', 'math.c', 'a.c'],
-    workers={'quick': 9, 'thorough': 16},
+    workers={'quick': 12, 'thorough': 16},
     level='exploration',
-    rule='per build configuration (quick: all switches on f64, all off f64, all off f32; thorough: all on, all off and each of the 23 A_HAVE_* '
+    rule='per build configuration (quick: all switches on f64, all off f64, all off f32, and CASINH / CACOSH / CATANH off alone f64; thorough: all on, all off and each of the 23 A_HAVE_* '
          'switches off alone, each for A_SIZE_REAL 8 and 4 = 50 builds) and per function (33 unary functions with out-of-place and in-place forms, '
          'add/sub/mul/div with complex, real-scalar and imaginary-scalar operands, pow, pow_real, logb, polar, abs, abs2, arg, logabs, eq/ne/rect, '
          '7 real-argument variants, 9 inverse-pair compositions): arguments with log-uniform modulus over the decades where the result is representable, '
